@@ -56,7 +56,8 @@ def handle (j : Json) : Except String Json := do
         (w', Json.mkObj ([("err", match e with | none => Json.null | some e => Json.str (werrName e)),
                           ("committed", jTable sch w'.committed), ("txn", jTable sch w'.txn), ("inTxn", toJson w'.inTxn),
                           ("keysOk", toJson (keysOkB sch w'.committed && keysOkB sch w'.txn)),
-                          ("inv", toJson (checkInv sch w'.sess))] ++ C11.dumpSess sch w'.sess) :: acc.2)) (World.init, [])
+                          ("inv", toJson (checkInv sch w'.sess)),
+                          ("queueOk", toJson (w'.sess.queue.Nodup && w'.sess.queue.all (fun o => decide (o < w'.sess.n))))] ++ C11.dumpSess sch w'.sess) :: acc.2)) (World.init, [])
       pure (Json.mkObj [("steps", .arr outs.reverse.toArray)])
   | _ => throw s!"unknown op {op}"
 end PonyVerif.Drive.C14
